@@ -3,7 +3,7 @@
    completion queue tells the truth about the durable state (monotonically); (3) every coroutine instance
    holds only records that are rows of the database and, if it awaits submission n, the submission (id, n)
    in flight is the one its program point expects.  Preserved by every step of every schedule. *)
-From RV Require Import Mon StoreLocks StorePromises Discipline.
+From RV Require Import Mon StoreLocks StorePromises StoreCallbacks Discipline.
 From Coq Require Import Lia.
 
 Definition pend_ok (d : db) (now : Z) (p : pend) : Prop :=
@@ -18,14 +18,31 @@ Definition inst_ok (d : db) (pl : list pend) (i : inst) : Prop :=
   (forall k n, i_st i = CSeq k n ->
                (n < i_next i)%nat /\ forall p, In p pl -> pd_id p = i_id i -> pd_n p = n -> k_expects k (pd_sub p)).
 
+(* every task row carries one of the five task states *)
+Definition TaskStates (d : db) : Prop := forall t, In t (tasks d) -> valid_tstate (t_state t).
+
+(* the state a command may write into a task row *)
+Definition cmd_ts (c : command) : Prop :=
+  match c with
+  | UpdateTask u => valid_tstate (ut_state u)
+  | CreateTask tc => valid_tstate (ct_state tc)
+  | CreatePromiseAndTask _ tc => valid_tstate (ct_state tc)
+  | _ => True
+  end.
+
 Definition SInv (s : sys) : Prop :=
-  prom_uniq (s_db s) /\
+  (prom_uniq (s_db s) /\ TaskStates (s_db s)) /\
   Forall (pend_ok (s_db s) (s_now s)) (s_pend s) /\
   Forall (inst_ok (s_db s) (s_pend s)) (s_insts s) /\
   NoDup (map i_id (s_insts s)).
 
 Lemma SInv_init : SInv (sys0 db0).
-Proof. repeat split; constructor. Qed.
+Proof. split; [split; [constructor|intros x []]|]. repeat split; constructor. Qed.
+
+Lemma SInv_uniq : forall s, SInv s -> prom_uniq (s_db s).
+Proof. intros s H. exact (proj1 (proj1 H)). Qed.
+Lemma SInv_tstates : forall s, SInv s -> TaskStates (s_db s).
+Proof. intros s H. exact (proj2 (proj1 H)). Qed.
 
 (* ---------- monotonicity ---------- *)
 
@@ -257,7 +274,7 @@ Definition sch_wf (sch : list directive) : Prop := Forall dir_wf sch.
 Lemma SInv_tick : forall cfg s t dl bgs arr s' ob,
     SInv s -> dir_wf (DTick t dl bgs arr) -> step cfg s (DTick t dl bgs arr) = Some (s', ob) -> SInv s'.
 Proof.
-  intros cfg s t dl bgs arr s' ob [U [HP [HI ND]]] Hwf H. cbn in H, Hwf.
+  intros cfg s t dl bgs arr s' ob [[U TS] [HP [HI ND]]] Hwf H. cbn in H, Hwf.
   destruct (t <? s_now s) eqn:Et; [discriminate|]. apply Z.ltb_ge in Et.
   destruct (negb (ids_fresh s (map fst bgs ++ map fst arr))) eqn:Ef; [discriminate|]. apply negb_false_iff in Ef.
   destruct (take_deliveries dl (s_pend s)) as [[ds pl]|] eqn:Etd; [|discriminate].
@@ -291,7 +308,7 @@ Proof.
                (exists id o, In (id, o) starts /\ In p (number_subs id (s_group s) 0 (o_subs o)))).
   { intros p Hp. unfold PL in Hp. apply in_app_or in Hp. destruct Hp as [Hp|Hp]; [left; apply Hsub; exact Hp|].
     apply in_app_or in Hp. destruct Hp as [Hp|Hp]; [right; left; apply R1b; exact Hp|right; right; apply R2b; exact Hp]. }
-  split; [exact U|]. split; [|split].
+  split; [split; [exact U|exact TS]|]. split; [|split].
   - (* pending submissions *)
     apply Forall_forall. intros p Hp. destruct (HPL p Hp) as [Hold|[[i [Hi Hn]]|[id [o [Ho Hn]]]]].
     + eapply pend_ok_mono; [apply prom_le_refl|exact Et|]. eapply Forall_forall; [exact HP|exact Hold].
@@ -370,9 +387,9 @@ Proof.
   - split; [unfold ceq; cbn; tauto|]. intros Hn. cbn in Hn. unfold Pending in Hn. contradiction.
 Qed.
 
-Lemma exec_res_for : forall d c h d' r, prom_uniq d -> accepts c = true -> exec d c h = Some (d', r) -> res_for d' c r.
+Lemma exec_res_for : forall d c h d' r, prom_uniq d -> TaskStates d -> accepts c = true -> exec d c h = Some (d', r) -> res_for d' c r.
 Proof.
-  intros d c h d' r U A H. destruct c; cbn in H; unfold alter in H;
+  intros d c h d' r U TS A H. destruct c; cbn in H; unfold alter in H;
     try (inversion H; subst; exact I);
     try (destruct (ex_search_schedules _ _ _ _ _); inversion H; subst; exact I);
     try (destruct (ex_read_enqueueable _ _ _); inversion H; subst; exact I);
@@ -398,6 +415,10 @@ Proof.
     + apply in_map_iff. exists p. rewrite Hg. tauto.
     + unfold upd_guard in Hg. apply andb_true_iff in Hg. destruct Hg as [Hg _]. apply String.eqb_eq in Hg.
       split; [cbn; exact Hg|]. unfold ucompl; cbn. tauto.
+  - (* ReadTasks *)
+    inversion H; subst. cbn. apply Forall_forall. intros t Ht. apply in_map_iff in Ht. destruct Ht as [t0 [<- Ht]].
+    apply limit_take_in in Ht. apply sort_by_in in Ht. apply filter_In in Ht. destruct Ht as [Ht Hg].
+    apply andb_true_iff in Hg. cbn. split; [tauto|apply TS; exact Ht].
   - (* CreatePromiseAndTask *)
     unfold ex_create_promise_and_task in H.
     destruct (find_promise (cp_id pc) d) as [p|] eqn:F.
@@ -408,41 +429,79 @@ Proof.
       cbn. eexists _, _. split; [reflexivity|right]. destruct Hc as [q [Hq Hrest]]. exists q. rewrite Hct. tauto.
 Qed.
 
-Definition sub_accepts (cs : list command) : Prop := Forall (fun c => accepts c = true) cs.
+Definition sub_accepts (cs : list command) : Prop := Forall (fun c => accepts c = true /\ cmd_ts c) cs.
+
+Lemma valid_init : valid_tstate TInit. Proof. unfold valid_tstate; tauto. Qed.
+Lemma valid_completed : valid_tstate TCompleted. Proof. unfold valid_tstate; tauto. Qed.
+
+Lemma exec_tstates : forall d c h d' r, cmd_ts c -> TaskStates d -> exec d c h = Some (d', r) -> TaskStates d'.
+Proof.
+  intros d c h d' r Hc TS H. destruct (is_task_write c) eqn:W.
+  - destruct c; cbn in W; try discriminate; cbn in H; unfold alter in H.
+    + inversion H; subst. unfold ex_create_task. destruct (find_task (ct_id c) d); cbn; [exact TS|].
+      intros x Ht. apply in_app_or in Ht. destruct Ht as [Ht|[<-|[]]]; [apply TS; exact Ht|exact Hc].
+    + destruct (ex_create_tasks d pid created) as [x|] eqn:E; [|discriminate]. inversion H; subst.
+      unfold ex_create_tasks in E. destruct (existsb _ _); [discriminate|]. inversion E; subst. cbn.
+      intros x Ht. apply in_app_or in Ht. destruct Ht as [Ht|Ht]; [apply TS; exact Ht|].
+      clear - Ht. revert Ht. generalize (next_t d) as n.
+      generalize (sort_by cb_le (filter (fun c => String.eqb (cb_pid c) pid) (callbacks d))) as l.
+      induction l as [|y l IH]; intros n Ht; cbn in Ht; [contradiction|]. destruct Ht as [<-|Ht]; [apply valid_init|eapply IH; exact Ht].
+    + inversion H; subst. cbn. intros x Ht. apply in_map_iff in Ht. destruct Ht as [t0 [<- Ht]].
+      destruct (ct_guard root t0); [apply valid_completed|apply TS; exact Ht].
+    + inversion H; subst. cbn. intros x Ht. apply in_map_iff in Ht. destruct Ht as [t0 [<- Ht]].
+      destruct (ut_guard c t0); [exact Hc|apply TS; exact Ht].
+    + inversion H; subst. cbn. intros x Ht. apply in_map_iff in Ht. destruct Ht as [t0 [<- Ht]].
+      destruct (hb_t_guard pid t0); [cbn; apply TS; exact Ht|apply TS; exact Ht].
+    + unfold ex_create_promise_and_task in H. pose proof (cp_tasks d pc) as H1.
+      destruct (ex_create_promise d pc) as [d1 pr]. cbn in H1. destruct (pr =? 0).
+      * inversion H; subst. intros x Ht. rewrite H1 in Ht. apply TS; exact Ht.
+      * assert (TS1 : TaskStates d1) by (intros x Hx; rewrite H1 in Hx; apply TS; exact Hx).
+        unfold ex_create_task in H. destruct (find_task (ct_id tc) d1); inversion H; subst; cbn; intros x Ht.
+        -- apply TS1; exact Ht.
+        -- apply in_app_or in Ht. destruct Ht as [Ht|[<-|[]]]; [apply TS1; exact Ht|exact Hc].
+  - intros x Ht. rewrite (exec_tasks_frame _ _ _ _ _ H W) in Ht. apply TS; exact Ht.
+Qed.
 
 Lemma exec_txn_spec : forall cs hs d d' rs,
-    prom_uniq d -> sub_accepts cs -> exec_txn d cs hs = Some (d', rs) ->
-    prom_le d d' /\ prom_uniq d' /\ Forall2 (res_for d') cs rs.
+    prom_uniq d -> TaskStates d -> sub_accepts cs -> exec_txn d cs hs = Some (d', rs) ->
+    prom_le d d' /\ prom_uniq d' /\ TaskStates d' /\ Forall2 (res_for d') cs rs.
 Proof.
-  induction cs as [|c cs IH]; intros hs d d' rs U A H; cbn in H.
-  - inversion H; subst. split; [apply prom_le_refl|split; [exact U|constructor]].
-  - inversion A; subst. destruct (exec d c (hd None hs)) as [[d1 r]|] eqn:E; [|discriminate].
+  induction cs as [|c cs IH]; intros hs d d' rs U TS A H; cbn in H.
+  - inversion H; subst. split; [apply prom_le_refl|split; [exact U|split; [exact TS|constructor]]].
+  - inversion A as [|? ? [H2 H2t] H3]; subst. destruct (exec d c (hd None hs)) as [[d1 r]|] eqn:E; [|discriminate].
     destruct (exec_txn d1 cs (tl hs)) as [[d2 rs2]|] eqn:E2; [|discriminate]. inversion H; subst.
-    destruct (exec_prom_le _ _ _ _ _ U H2 E) as [L1 U1]. destruct (IH _ _ _ _ U1 H3 E2) as [L2 [U2 R2]].
-    split; [apply (prom_le_trans d d1 d' U U1 L1 L2)|]. split; [exact U2|]. constructor; [|exact R2].
-    eapply res_for_mono; [exact L2|]. exact (exec_res_for d c (hd None hs) d1 r U H2 E).
+    destruct (exec_prom_le _ _ _ _ _ U H2 E) as [L1 U1]. pose proof (exec_tstates _ _ _ _ _ H2t TS E) as TS1.
+    destruct (IH _ _ _ _ U1 TS1 H3 E2) as [L2 [U2 [TS2 R2]]].
+    split; [apply (prom_le_trans d d1 d' U U1 L1 L2)|]. split; [exact U2|]. split; [exact TS2|]. constructor; [|exact R2].
+    eapply res_for_mono; [exact L2|]. exact (exec_res_for d c (hd None hs) d1 r U TS H2 E).
 Qed.
 
 Lemma Forall2_res_mono : forall d d' cs rs, prom_le d d' -> Forall2 (res_for d) cs rs -> Forall2 (res_for d') cs rs.
 Proof. intros d d' cs rs L H. induction H; constructor; [eapply res_for_mono; eassumption|assumption]. Qed.
 
 Lemma exec_batch_spec : forall txns d d' rss,
-    prom_uniq d -> Forall (fun x => sub_accepts (fst x)) txns -> exec_batch d txns = Some (d', rss) ->
-    prom_le d d' /\ prom_uniq d' /\ Forall2 (fun x rs => Forall2 (res_for d') (fst x) rs) txns rss.
+    prom_uniq d -> TaskStates d -> Forall (fun x => sub_accepts (fst x)) txns -> exec_batch d txns = Some (d', rss) ->
+    prom_le d d' /\ prom_uniq d' /\ TaskStates d' /\ Forall2 (fun x rs => Forall2 (res_for d') (fst x) rs) txns rss.
 Proof.
-  induction txns as [|[cs hs] txns IH]; intros d d' rss U A H; cbn in H.
-  - inversion H; subst. split; [apply prom_le_refl|split; [exact U|constructor]].
+  induction txns as [|[cs hs] txns IH]; intros d d' rss U TS A H; cbn in H.
+  - inversion H; subst. split; [apply prom_le_refl|split; [exact U|split; [exact TS|constructor]]].
   - inversion A; subst. destruct (exec_txn d cs hs) as [[d1 rs]|] eqn:E; [|discriminate].
     destruct (exec_batch d1 txns) as [[d2 rss2]|] eqn:E2; [|discriminate]. inversion H; subst.
-    destruct (exec_txn_spec _ _ _ _ _ U H2 E) as [L1 [U1 R1]]. destruct (IH _ _ _ U1 H3 E2) as [L2 [U2 R2]].
-    split; [apply (prom_le_trans d d1 d' U U1 L1 L2)|]. split; [exact U2|]. constructor; [|exact R2]. cbn.
+    destruct (exec_txn_spec _ _ _ _ _ U TS H2 E) as [L1 [U1 [TS1 R1]]]. destruct (IH _ _ _ U1 TS1 H3 E2) as [L2 [U2 [TS2 R2]]].
+    split; [apply (prom_le_trans d d1 d' U U1 L1 L2)|]. split; [exact U2|]. split; [exact TS2|]. constructor; [|exact R2]. cbn.
     eapply Forall2_res_mono; eassumption.
 Qed.
 
+Lemma ut_shape_valid : forall u, ut_shape u -> valid_tstate (ut_state u).
+Proof. intros u (_&_&_&_&_&_&H). exact H. Qed.
+
 Lemma sub_at_accepts : forall d t cs, Forall (cmd_at d t) cs -> sub_accepts cs.
 Proof.
-  intros d t cs H. eapply Forall_impl; [|exact H]. intros c Hc. destruct c; cbn in *; try reflexivity.
-  eapply up_ok_final; eassumption.
+  intros d t cs H. eapply Forall_impl; [|exact H]. intros c Hc. destruct c; cbn in *; try (split; [reflexivity|exact I]).
+  - split; [eapply up_ok_final; eassumption|exact I].
+  - split; [reflexivity|]. unfold valid_tstate. tauto.
+  - split; [reflexivity|]. apply ut_shape_valid. tauto.
+  - split; [reflexivity|]. unfold valid_tstate. tauto.
 Qed.
 
 Lemma batch_txns_spec : forall d now batch pl txns,
@@ -524,7 +583,7 @@ Qed.
 
 Lemma SInv_exec : forall cfg s batch s' ob, SInv s -> step cfg s (DExec batch) = Some (s', ob) -> SInv s'.
 Proof.
-  intros cfg s batch s' ob [U [HP [HI ND]]] H. cbn in H.
+  intros cfg s batch s' ob [[U TS] [HP [HI ND]]] H. cbn in H.
   destruct (batch_txns batch (s_pend s)) as [txns|] eqn:Eb; [|discriminate].
   destruct (negb (nodup_items batch)) eqn:En; [discriminate|]. apply negb_false_iff in En.
   destruct (c_fifo cfg && negb (fifo_ok batch (s_pend s))); [discriminate|].
@@ -532,13 +591,13 @@ Proof.
   assert (Hacc : Forall (fun x => sub_accepts (fst x)) txns).
   { eapply Forall_impl; [|exact Ht]. intros x [t [_ [Hx _]]]. eapply sub_at_accepts; exact Hx. }
   destruct (exec_batch (s_db s) txns) as [[d' rss]|] eqn:Ee; inversion H; subst; clear H; unfold SInv; cbn.
-  - destruct (exec_batch_spec _ _ _ _ U Hacc Ee) as [L [U' R]].
-    split; [exact U'|]. split; [|split; [|exact ND]].
+  - destruct (exec_batch_spec _ _ _ _ U TS Hacc Ee) as [L [U' [TS' R]]].
+    split; [split; [exact U'|exact TS']|]. split; [|split; [|exact ND]].
     + eapply set_batch_ready_ok; [exact Eb|exact En| |exact R].
       eapply Forall_impl; [|exact HP]. intros p. apply pend_ok_mono; [exact L|lia].
     + eapply Forall_impl; [|exact HI]. intros i Hi. eapply inst_ok_keys; [symmetry; apply set_batch_ready_keys|].
       eapply inst_ok_mono; eassumption.
-  - split; [exact U|]. split; [|split; [|exact ND]].
+  - split; [split; [exact U|exact TS]|]. split; [|split; [|exact ND]].
     + eapply set_batch_ready_ok; [exact Eb|exact En|exact HP|exact I].
     + eapply Forall_impl; [|exact HI]. intros i Hi. eapply inst_ok_keys; [symmetry; apply set_batch_ready_keys|exact Hi].
 Qed.
@@ -547,7 +606,7 @@ Lemma SInv_set_ready : forall s id n c p,
     SInv s -> find_pend id n (s_pend s) = Some p -> rdy_ok (s_db s) (pd_sub p) c ->
     SInv (mkSys (s_db s) (s_now s) (s_group s) (s_insts s) (set_ready id n c (s_pend s))).
 Proof.
-  intros s id n c p [U [HP [HI ND]]] F Hr. unfold SInv; cbn. split; [exact U|]. split; [|split; [|exact ND]].
+  intros s id n c p [[U TS] [HP [HI ND]]] F Hr. unfold SInv; cbn. split; [split; [exact U|exact TS]|]. split; [|split; [|exact ND]].
   - apply set_ready_forall; [exact HP|]. intros p' Hp'. rewrite F in Hp'. inversion Hp'; subst p'. unfold pend_ok; cbn. exact Hr.
   - eapply Forall_impl; [|exact HI]. intros i Hi. eapply inst_ok_keys; [symmetry; apply set_ready_keys|exact Hi].
 Qed.
@@ -566,7 +625,7 @@ Proof.
   - cbn in H. destruct (find_pend id n (s_pend s)) as [p|] eqn:F; [|discriminate].
     destruct (pd_sub p) eqn:Es; try discriminate. destruct (pd_ready p); inversion H; subst.
     eapply SInv_set_ready; [exact HS|exact F|]. rewrite Es. destruct res; exact I.
-  - cbn in H. inversion H; subst. destruct HS as [U _]. unfold SInv; cbn. repeat split; try exact U; constructor.
+  - cbn in H. inversion H; subst. destruct HS as [U _]. unfold SInv; cbn. split; [exact U|]. repeat split; constructor.
 Qed.
 
 (* ---------- what a tick can show ---------- *)
@@ -604,7 +663,7 @@ Lemma tick_obs_ok : forall cfg s t dl bgs arr s' ob,
     SInv s -> dir_wf (DTick t dl bgs arr) -> step cfg s (DTick t dl bgs arr) = Some (s', ob) ->
     s_now s <= t /\ s_db s' = s_db s /\ Forall (obs_out (s_db s) t) ob.
 Proof.
-  intros cfg s t dl bgs arr s' ob [U [HP [HI ND]]] Hwf H. cbn in H, Hwf.
+  intros cfg s t dl bgs arr s' ob [[U TS] [HP [HI ND]]] Hwf H. cbn in H, Hwf.
   destruct (t <? s_now s) eqn:Et; [discriminate|]. apply Z.ltb_ge in Et. split; [exact Et|].
   destruct (negb (ids_fresh s (map fst bgs ++ map fst arr))); [discriminate|].
   destruct (take_deliveries dl (s_pend s)) as [[ds pl]|] eqn:Etd; [|discriminate].
@@ -639,7 +698,7 @@ Lemma exec_obs : forall cfg s batch s' ob,
                  ((exists rss, exec_batch (s_db s) txns = Some (s_db s', rss) /\ ob = [OExec (map fst txns) (Some rss) (s_db s')]) \/
                   (exec_batch (s_db s) txns = None /\ s_db s' = s_db s /\ ob = [OExec (map fst txns) None (s_db s)])).
 Proof.
-  intros cfg s batch s' ob [U [HP _]] H. cbn in H.
+  intros cfg s batch s' ob [[U TS] [HP _]] H. cbn in H.
   destruct (batch_txns batch (s_pend s)) as [txns|] eqn:Eb; [|discriminate].
   destruct (negb (nodup_items batch)); [discriminate|].
   destruct (c_fifo cfg && negb (fifo_ok batch (s_pend s))); [discriminate|].
